@@ -12,8 +12,11 @@ import proto
 from proto import run_driver, f2b, fbits, unbits
 
 ASSUMPTIONS = [
-    "the Lean model GSV/Model/Norm.lean is hand-written from normalizer/{base,methods,tools}.py (no pyexpr2lean "
-    "translator); it is tied to the code only by this differential execution",
+    "the formula layer of GSV/Model/Norm.lean (normRaw / denormRaw / derivRaw / normRange / denormRange of the six "
+    "classes) is proved equal to definitions regenerated from normalizer/methods.py by vlib/pyexpr2lean.py (tie A, "
+    "GSV/Props/GenTieNorm.lean); the rest of the model (masking, likelihoods, pipeline, identity base class) is "
+    "hand-written from normalizer/{base,tools}.py and tied to the code only by this differential execution",
+    "vlib/pyexpr2lean.py and GSV/PyExpr.lean define what an element-wise numpy expression means",
     "np.log1p(x)/np.expm1(x) are modelled as log(1+x)/exp(x)-1 (same real functions); Float results are compared "
     "within a condition-aware tolerance 5e-13*(|a|+|b|) + 2e-14*(1+1/|lmbda_eff|)",
     "theorems are over the reals; IEEE effects (saturation of exp/pow, e.g. Manly(lmbda<0).normalize(50) landing "
